@@ -27,6 +27,16 @@ CHECKS = {
             "under a release build (no debug assertions / overflow checks) and the digests of all encodings are compared.",
             "No counterexample among the generated and constructed cases. The 268,435,455-byte accepted side is only built in the thorough tier. " + TRUST,
             "DESIGN.md §7 C02"),
+    "C03": ("exploration",
+            "exhaustive enumeration of short byte strings + mutation-based generation (proptest over choice tapes) + coverage-guided fuzzing with ASan and a Miri suite in the thorough tier; oracle: totality (no panic/abort/spin) under two build profiles",
+            "All byte strings up to 2 (quick) / 3 (thorough) bytes, every 2-byte header followed by 18 short bodies, hand-written "
+            "maximal-length headers and generated corruptions of valid packets are fed to every decoder entry point of both "
+            "families (blocking, async, poll one-shot and one byte at a time with Pending and drop/re-create, bare headers). A panic "
+            "(overflow checks and debug assertions are on in the relcheck profile), an abort (a signal handler dumps the parked "
+            "case) or a transport polled beyond its call bound is a violation; the run is repeated under the release profile. The "
+            "thorough tier adds libFuzzer campaigns with AddressSanitizer and a Miri run of a fixed generated suite.",
+            "Totality and termination are established for the explored inputs only (termination through call bounds). Out-of-bounds access and uninitialised reads are judged by ASan/Miri in the thorough tier only, on the inputs those runs execute. " + TRUST,
+            "DESIGN.md §7 C03"),
     "C04": ("exploration",
             "grammar-based and mutation-based generation of complete frames (proptest over choice tapes); differential against an independent reference decoder",
             "Complete, minimally encoded frames of both families are generated from the wire-level model: well-formed frames in every "
@@ -36,6 +46,23 @@ CHECKS = {
             "of the reference decoder has to be reached or the run reports broken machinery.",
             "No disagreement among the generated frames. The reference decoder and the pinned grammar (DESIGN.md §5) are the trusted oracle. " + TRUST,
             "DESIGN.md §7 C04"),
+    "C05": ("exploration",
+            "exhaustive enumeration of delivery schedules for short streams + random schedules (proptest over choice tapes); one-shot execution as reference",
+            "The poll decoder is driven by hand over scripted transports: for a fixed list of short streams of every packet type "
+            "(well-formed, malformed, truncated, with trailing bytes) every composition of the stream into reads is run with and "
+            "without Pending before every read and with the future dropped and re-created from the caller-held state at every "
+            "Pending; longer generated streams (1-4 byte headers) get random schedules. Each run must equal the uninterrupted run, "
+            "return Pending only when the transport did, never request more than the frame still needs, and consume what it reports.",
+            "Exhaustive for the listed streams up to 15 (quick) / 18 (thorough) bytes; random beyond. The frame end used by the capacity check comes from the harness' own header parse. " + TRUST,
+            "DESIGN.md §7 C05"),
+    "C06": ("exploration",
+            "differential testing of the three decoder front-ends on generated byte strings (proptest over choice tapes; libFuzzer in the thorough tier)",
+            "Byte strings from the shared corpus generator (valid, re-spelled, leniently framed, malformed, mutated, random) are given "
+            "to the blocking, async and poll decoders of both families: blocking must equal async with EOF mapped to Ok(None) (also "
+            "for bare headers) on every string; on strings starting with a complete frame a poll acceptance must be matched by both "
+            "lenient decoders and a poll rejection other than InvalidRemainingLength must be returned identically by both.",
+            "No disagreement among the generated strings. " + TRUST,
+            "DESIGN.md §7 C06"),
     "C07": ("exploration",
             "property-based testing (proptest over choice tapes) x enumeration of cut positions; classification oracle",
             "For generated valid packets every strict prefix of the encoding (all cut positions for encodings up to 400 bytes, "
@@ -66,6 +93,29 @@ CHECKS = {
             "every context and every protocol level must have been exercised or the run reports broken machinery.",
             "No counterexample among the generated cases; the reference decoder and its spec tables (DESIGN.md Appendix A) are trusted. " + TRUST,
             "DESIGN.md §7 C10"),
+    "C11": ("exploration",
+            "property-based testing on accepted inputs (proptest over choice tapes; libFuzzer in the thorough tier): re-encode / re-decode round trip and length bound, two build profiles",
+            "For every byte string of the shared corpus generator that any front-end accepts, the returned packet is re-encoded "
+            "(no error, no panic), the re-encoding is decoded by all three front-ends back to the same packet, and the re-encoding "
+            "must not be longer than the bytes the decoder consumed. One listed known finding (K1: lenient decoders accept an "
+            "under-declared remaining length) is tolerated by exact signature and counted; anything else is a violation.",
+            "No counterexample among the generated accepted inputs other than the listed finding. " + TRUST,
+            "DESIGN.md §7 C11"),
+    "C12": ("exploration",
+            "property-based testing on accepted inputs (proptest over choice tapes; libFuzzer in the thorough tier): field walk with independent predicates",
+            "Every packet returned by any front-end for a generated byte string is walked field by field (exhaustive destructuring): "
+            "text fields are re-validated with std's UTF-8 check, topic names and filters with the library's and the harness' "
+            "predicates, shared-subscription accessors are exercised against the split of the text, pids, var-int fields and "
+            "UTF-8-flagged payloads are checked. All ~70 field labels must be reached.",
+            "No counterexample among the generated accepted inputs. " + TRUST,
+            "DESIGN.md §7 C12"),
+    "C13": ("exploration",
+            "property-based testing (proptest over choice tapes) of cross-family CONNECTs + exhaustive (name, level) grid",
+            "Generated valid CONNECTs of each family are presented to the other family's three decoders: exact UnexpectedProtocol "
+            "error, byte count consumed by the async decoder, and continuation through decode_with_protocol compared with the native "
+            "decode. All 256 levels x 19 protocol names are checked against both families, all front-ends and Protocol::new.",
+            "No counterexample among the generated CONNECTs; the grid is enumerated completely. " + TRUST,
+            "DESIGN.md §7 C13"),
     "C14": ("fault_enumeration",
             "fault injection enumerated over byte positions and error kinds on generated packets (proptest-driven), scripted transports",
             "For generated valid packets a read error of each of five io::ErrorKinds is injected at every byte position (and EOF at "
